@@ -98,6 +98,10 @@ func propertyFuncs(p *Prog, prop string) []*ssa.Function {
 	return out
 }
 
+// slowClaimS: at baseline time, an obligation that needs this many seconds or more is recorded as unproven (not
+// claimed) even though it discharged: the check's budget (75 s) then leaves about an order of magnitude of margin.
+const slowClaimS = 8.0
+
 var effectProps = []string{"C04", "C05", "C08", "C11", "C12"}
 
 func contractMentions(c *Contract, prop string) bool {
@@ -222,9 +226,9 @@ func cmdCheck(args []string) int {
 	_ = isSweep
 	dir, _ := os.MkdirTemp("/var/tmp", "govc-"+prop+"-")
 	defer os.RemoveAll(dir)
-	opts := SolveOpts{Dir: dir, QuickMs: 1500, FallbackS: 75, Prop: prop}
+	opts := SolveOpts{Dir: dir, QuickMs: 8000, FallbackS: 150, Prop: prop}
 	if baseline {
-		opts = SolveOpts{Dir: dir, QuickMs: 3000, FallbackS: 25, Prop: prop}
+		opts = SolveOpts{Dir: dir, QuickMs: 8000, FallbackS: 25, Prop: prop}
 		if len(multi) > 0 {
 			opts.Prop = ""
 		}
@@ -363,8 +367,12 @@ func cmdCheck(args []string) int {
 			if or.Status == "unsat" {
 				discharged++
 				byBackend[or.Solver]++
-				if or.Sec < 12 {
+				if or.Sec < slowClaimS {
 					newClaims[r.key] = append(newClaims[r.key], o.Name)
+				} else if baseline {
+					// discharged, but too slowly to be claimed: under load it could miss the check's time budget and
+					// raise an alarm on an unchanged tree (claims are restricted to obligations well under the budget)
+					notDischarged[r.key] = append(notDischarged[r.key], o.Name)
 				}
 				if len(samples) < 400 {
 					samples = append(samples, sample{o.Name, o.Class, o.Text, o.Pos, or.Solver, round3(or.Sec), "discharged"})
@@ -441,7 +449,7 @@ func cmdCheck(args []string) int {
 						continue
 					}
 					tot++
-					if or.Status != "unsat" && kf.lookup(q, or.O) == nil {
+					if (or.Status != "unsat" || or.Sec >= slowClaimS) && kf.lookup(q, or.O) == nil {
 						nd[r.key] = append(nd[r.key], or.O.Name)
 						bad++
 					}
